@@ -7,7 +7,8 @@ out of scope):
 * `SymbolicOperator._issmall`, `SymbolicOperator.isclose`, `__eq__`, `__ne__`
   (symbolic_operator.py) — as coded after commit e8ec695d (per-term tolerance),
   parameterised by the iteration order of the two Python `set`s;
-* `MajoranaOperator.__eq__` (`numpy.isclose`, asymmetric: relative to `other`),
+* `MajoranaOperator.__eq__` (shared terms: `numpy.isclose(a, b) or numpy.isclose(b, a)`, i.e.
+  relative to the larger magnitude, as coded after commit 282d5e66),
   `MajoranaOperator.commutes_with`, `_majorana_terms_commute` (majorana_operator.py);
 * `FermionOperator.is_normal_ordered`, `is_two_body_number_conserving`,
   `BosonOperator.is_normal_ordered`, `is_boson_preserving`;
@@ -79,7 +80,7 @@ def unionKeys (a b : MOp) : List MTerm :=
 /-- one step of the loop of `MajoranaOperator.__eq__` -/
 def majTermClose (atol rtol : Rat) (a b : MOp) (t : MTerm) : Bool :=
   match Dict.get? a t, Dict.get? b t with
-  | some x, some y => npIsclose atol rtol x y
+  | some x, some y => npIsclose atol rtol x y || npIsclose atol rtol y x
   | some x, none => npIsclose atol rtol x 0
   | none, some y => npIsclose atol rtol y 0
   | none, none => true
